@@ -292,7 +292,7 @@ def eval_in_coq(name, module, verdict_expr, terms, per_shard=None, timeout=1500)
         with open(path, "w", encoding="utf-8") as f:
             f.write(HEADER % module)
             for cid, term in sh_terms:
-                f.write("Eval vm_compute in (CASE %d, %s %s).\n" % (cid, verdict_expr, term))
+                f.write("Eval vm_compute in (CASE %d, %s %s).\n" % (cid, verdict_expr or "", term))
         procs.append((k, subprocess.Popen(
             ["timeout", str(timeout), "coqc", "-noglob", "-Q", os.path.join(COQ, "theories"), "PLS", path],
             stdout=subprocess.PIPE, stderr=subprocess.STDOUT, text=True, errors="replace", cwd=d)))
